@@ -21,6 +21,9 @@ structure RawMap where
   length : Int := 0
   destination : String := ""
   endian : String := ""
+  /-- only for writing the YAML file: use the key `endian` (as docs/protocols.md and the example
+      mapping file do) instead of `endianness` -/
+  shortKey : Bool := false
   deriving Repr, Inhabited
 
 structure RawConfig where
